@@ -185,7 +185,7 @@ def selftest():
     assert len(outs2) == 1 + 4 + (1 * 2 + 1 * 1 + 2 * 1), len(outs2)
     # divergence detection
     try:
-        tape.replay(body, [1, 5, 0])
+        tape.replay(body, [1, 5, 0], lenient=False)
         raise AssertionError("divergence not detected")
     except tape.Divergence:
         pass
